@@ -11,7 +11,7 @@ use proptest::prelude::*;
 pub struct C12;
 
 /// Grammar positions at which a field is observed.
-pub const POS_NAMES: [&str; 7] = ["transaction-id", "value-list", "value", "status", "unit", "scaler", "val-time"];
+pub const POS_NAMES: [&str; 8] = ["transaction-id", "value-list", "value", "status", "unit", "scaler", "val-time", "time-tag"];
 
 #[derive(Debug, Clone)]
 pub struct Input {
@@ -73,6 +73,11 @@ pub fn build(i: &Input) -> Vec<u8> {
             // status, val_time, unit, scaler
             if i.pos == p {
                 b.extend_from_slice(&fd);
+            } else if i.pos == 7 && p == 6 {
+                // the field under test is the choice tag of the entry's time: 72 <tag> <seconds>
+                b.push(0x72);
+                b.extend_from_slice(&fd);
+                b.extend_from_slice(&[0x65, 0x00, 0x00, 0x00, 0x2a]);
             } else {
                 b.push(0x01);
             }
@@ -127,7 +132,7 @@ pub fn eval_input(i: &Input, obs: &mut Obs) -> Result<(), Fail> {
     let x = build(i);
     let r = read_events(&x, true);
     let s = run_streaming(&x, 0);
-    let ctx = || format!("field {} (+{} data bytes {}) at position {} -> input {}", hex_short(&i.field, 16), i.data.len(), hex_short(&i.data, 12), POS_NAMES[i.pos as usize % 7], hex_short(&x, 120));
+    let ctx = || format!("field {} (+{} data bytes {}) at position {} -> input {}", hex_short(&i.field, 16), i.data.len(), hex_short(&i.data, 12), POS_NAMES[i.pos as usize % 8], hex_short(&x, 120));
     ensure!(!s.cap_exceeded, "streaming-endless", "streaming parser did not finish; {}", ctx());
     let same_prefix = s.events == r.events;
     let sig = match &r.reject {
@@ -167,7 +172,7 @@ pub fn eval_input(i: &Input, obs: &mut Obs) -> Result<(), Fail> {
         }
         n
     };
-    obs.class(format!("pos:{}", POS_NAMES[i.pos as usize % 7]));
+    obs.class(format!("pos:{}", POS_NAMES[i.pos as usize % 8]));
     obs.class(format!("tlf-bytes:{}", tlf_len.min(12)));
     if let Some(b0) = i.field.first() {
         obs.class(format!("type-bits:{:03b}", (b0 >> 4) & 7));
@@ -187,7 +192,7 @@ fn exh_len(tier: Tier) -> usize {
 
 impl Prop for C12 {
     const ID: &'static str = "C12";
-    const RULE: &'static str = "fields placed at seven grammar positions of a one-message file (transaction id = octet context, value-list TLF = list context visible as num_vals before any entry or CRC is read, list-entry value = integer / unsigned / boolean / octet / list context, status, unit, scaler, value time), followed by their data and template bytes, with checksum fix-up. Exhaustive: every byte sequence of length 1..2 (thorough 1..3) as field at the first three positions. Generated: TLFs of 1..12 bytes (occasionally up to 40, ~256 or ~512 bytes, i.e. beyond any 8-bit byte counter) from nibble patterns (leading zero nibbles, all-F, 2^32-1, 2^32, 2^32+small, values whose low 32 bits equal the length of the data actually supplied, one extra non-zero 4-bit group 8..47 groups before the end of the field (worth 2^32 .. beyond 2^64 and 2^128, the field lengthened as needed), reserved type bits in first / continuation bytes, more-bit on the last byte), integers of width 0..9 x signedness x leading byte {00,01,7f,80,fe,ff,random} x random rest x 0..3 extra TLF bytes, all 256 boolean bytes. Oracle: the reference event reader R3 vs the streaming parser's events (fields are visible there before the message CRC is checked) and, for the whole message, vs complete::parse: a value => identical event; a rejection (negative length, > 32 bits, reserved bits, wrong type for the position, missing bytes) => an error, never an event built from a wrapped or truncated length. Non-trivial: the TLF spans >= 2 bytes, or an integer whose leading byte is a boundary value. Distinct = distinct (position, field, data).";
+    const RULE: &'static str = "fields placed at eight grammar positions of a one-message file (the choice tag of an entry's time = one-byte unsigned context, transaction id = octet context, value-list TLF = list context visible as num_vals before any entry or CRC is read, list-entry value = integer / unsigned / boolean / octet / list context, status, unit, scaler, value time), followed by their data and template bytes, with checksum fix-up. Exhaustive: every byte sequence of length 1..2 (thorough 1..3) as field at the first three positions. Generated: TLFs of 1..12 bytes (occasionally up to 40, ~256 or ~512 bytes, i.e. beyond any 8-bit byte counter) from nibble patterns (leading zero nibbles, all-F, 2^32-1, 2^32, 2^32+small, values whose low 32 bits equal the length of the data actually supplied, one extra non-zero 4-bit group 8..47 groups before the end of the field (worth 2^32 .. beyond 2^64 and 2^128, the field lengthened as needed), reserved type bits in first / continuation bytes, more-bit on the last byte), integers of width 0..9 x signedness x leading byte {00,01,7f,80,fe,ff,random} x random rest x 0..3 extra TLF bytes, all 256 boolean bytes. Oracle: the reference event reader R3 vs the streaming parser's events (fields are visible there before the message CRC is checked) and, for the whole message, vs complete::parse: a value => identical event; a rejection (negative length, > 32 bits, reserved bits, wrong type for the position, missing bytes) => an error, never an event built from a wrapped or truncated length. Non-trivial: the TLF spans >= 2 bytes, or an integer whose leading byte is a boundary value. Distinct = distinct (position, field, data).";
     type Case = Case;
     type Input = Input;
 
@@ -208,7 +213,7 @@ impl Prop for C12 {
             5 => (prop_oneof![Just(0u8), Just(1u8), Just(0x7fu8), Just(0x80u8), Just(0xffu8), any::<u8>()], any::<u64>(), prop_oneof![6 => Just(0i8), 1 => Just(-1i8), 1 => Just(1i8)]).prop_map(|(lead, seed, delta)| DataSpec::Consistent { lead, seed, delta }),
             1 => Just(DataSpec::None),
         ];
-        let tlf = (0u8..7, prop_oneof![8 => prop_oneof![Just(0u8), Just(4u8), Just(5u8), Just(6u8), Just(7u8)], 1 => 0u8..8], raw, prop_oneof![30 => 0u16..5, 2 => 5u16..40, 1 => 244u16..262, 1 => 500u16..520], prop::option::weighted(0.08, (0u8..12, 1u8..8)), prop::bool::weighted(0.05), data, prop::bool::weighted(0.8), prop::option::weighted(0.12, (1u8..16, prop_oneof![3 => 8u16..10, 3 => 15u16..18, 2 => 31u16..34, 2 => 8u16..48])))
+        let tlf = (0u8..8, prop_oneof![8 => prop_oneof![Just(0u8), Just(4u8), Just(5u8), Just(6u8), Just(7u8)], 1 => 0u8..8], raw, prop_oneof![30 => 0u16..5, 2 => 5u16..40, 1 => 244u16..262, 1 => 500u16..520], prop::option::weighted(0.08, (0u8..12, 1u8..8)), prop::bool::weighted(0.05), data, prop::bool::weighted(0.8), prop::option::weighted(0.12, (1u8..16, prop_oneof![3 => 8u16..10, 3 => 15u16..18, 2 => 31u16..34, 2 => 8u16..48])))
             .prop_map(|(pos, ty, raw, extra, cont_bits, more_on_last, data, fix, high)| {
                 let mut need = 1u16;
                 let mut v = raw >> 4;
@@ -218,10 +223,10 @@ impl Prop for C12 {
                 }
                 Case::Tlf { pos, ty, raw, nibbles: if extra < 5 { (need + extra).min(12) } else { need + extra }, cont_bits, more_on_last, data, fix, high }
             });
-        let num = (prop_oneof![Just(2u8), Just(3u8), Just(4u8), Just(5u8), Just(6u8)], any::<bool>(), 0u8..10, prop_oneof![Just(0u8), Just(1u8), Just(0x7fu8), Just(0x80u8), Just(0xfeu8), Just(0xffu8), any::<u8>()], any::<u64>(), prop_oneof![6 => Just(0u8), 2 => 1u8..4], prop::bool::weighted(0.8))
+        let num = (prop_oneof![Just(2u8), Just(3u8), Just(4u8), Just(5u8), Just(6u8), Just(7u8)], any::<bool>(), 0u8..10, prop_oneof![Just(0u8), Just(1u8), Just(0x7fu8), Just(0x80u8), Just(0xfeu8), Just(0xffu8), any::<u8>()], any::<u64>(), prop_oneof![6 => Just(0u8), 2 => 1u8..4], prop::bool::weighted(0.8))
             .prop_map(|(pos, signed, width, lead, rest, extra, fix)| Case::Num { pos, signed, width, lead, rest, extra, fix });
         let boolean = (prop_oneof![8 => Just(0x42u8), 1 => Just(0x41u8), 1 => Just(0x43u8)], any::<u8>()).prop_map(|(tlf, byte)| Case::Bool { tlf, byte });
-        let rawf = (0u8..7, vec(any::<u8>(), 1..6), any::<bool>()).prop_map(|(pos, field, fix)| Case::Raw { pos, field, fix });
+        let rawf = (0u8..8, vec(any::<u8>(), 1..6), any::<bool>()).prop_map(|(pos, field, fix)| Case::Raw { pos, field, fix });
         prop_oneof![5 => tlf, 4 => num, 1 => boolean, 1 => rawf].boxed()
     }
 
@@ -260,6 +265,14 @@ impl Prop for C12 {
                 if let Some(f) = d.first_mut() {
                     *f = *lead;
                 }
+                if *pos == 7 && *lead <= 1 && !d.is_empty() {
+                    // at the tag position: the one value the choice knows (1), in `width` bytes
+                    for x in d.iter_mut() {
+                        *x = 0;
+                    }
+                    let l = d.len();
+                    d[l - 1] = 1;
+                }
                 Input { pos: *pos, field, data: d, fix: *fix }
             }
             Case::Bool { tlf, byte } => Input { pos: 2, field: vec![*tlf], data: vec![*byte], fix: true },
@@ -279,7 +292,7 @@ impl Prop for C12 {
 
     fn from_kv(kv: &Kv) -> Result<Input, String> {
         let pos = kv.get_u("pos")? as u8;
-        if pos > 6 {
+        if pos > 7 {
             return Err("pos out of range".into());
         }
         let field = kv.get_b("field")?;
